@@ -147,10 +147,10 @@ SPEC = Property(
     P, "fault_enumeration",
     rule=("address lists of 1..3 hosts (paired accessory / another accessory / refusing / black hole) x a per-attempt outcome script over "
           f"{len(ALL_OUTCOMES)} outcomes (refused, connect timeout, peer FIN/reset after M1 or M3, HTTP 4xx, wrong pairing id, bad signature, bad "
-          "auth tag, error TLVs incl. authentication, malformed TLV, stalled verify, controller unknown to the accessory, success, success "
+          "auth tag, error TLVs incl. authentication, malformed TLV, stalled verify, controller unknown to the accessory, damaged stored keys (ValueError / KeyError of the state machine), success, success "
           "then drop, success then FIN/reset during re-subscription) x harness events {caller request with/without timeout or "
           "cancellation, subscribe, advance time, zeroconf update, reconnect_soon, peer FIN/reset of the current and of an older "
-          "connection, close, shutdown}. Exhaustive over every outcome and every pair of consecutive outcomes "
+          "connection, close, shutdown, close / shutdown directly after a FIN / RST the loop has not polled}. Exhaustive over every outcome and every pair of consecutive outcomes "
           "in fixed event frames; generated histories beyond. Non-trivial: a failed setup followed by another attempt, or a close."),
     layers=[
         Layer("outcome-pairs", run_case, enumerate=enum_outcome_pairs, exhaustive=True,
